@@ -68,11 +68,13 @@ def make_cases(rng, tier, n):
         # a pipeline that was run and committed; then (old / mixed twin) its manifests are rewritten in the old schema: the next `dud run`
         # finds every stage up to date in all three twins (run uses the short-circuit form of status)
         base = gen.pipeline_project(rng, "old-pipe-%d" % i, rng.choice([2, 3]), tier="quick")
-        for e in base["stages"]:
-            if b"vcmd" not in e[1]["cmd"] and b"vlen" not in e[1]["cmd"]:
-                pass
+        for _retry in range(8):
+            if "dir" in base["kinds"]:
+                break          # at least one stage writes a directory output (there is a manifest to convert)
+            base = gen.pipeline_project(rng, "old-pipe-%d" % i, rng.choice([2, 3]), tier="quick")
         sel = "".join(sorted(rng.sample("0123456789abcdef", 8)))
-        first = [("run", False, []), ("commit", rng.choice("lc"), [])]
+        # every other pipeline is committed with links (the workspace directories then hold nothing but links)
+        first = [("run", False, []), ("commit", "l" if i % 2 == 0 else rng.choice("lc"), [])]
         tail = [("run", False, []), ("status", [])]
         for twin, conv in (("old", [("oldschema",)]), ("mixed", [("oldschema", sel)]), ("new", [])):
             c = copy.deepcopy(base)
